@@ -39,6 +39,23 @@ def history(draw, max_steps=30, big_payloads=False, burst=True, faults=True):
 
 
 def run(case, prop):
-    viols, labels, info = vpool.run_history(case)
+    if case.get("kind") == "real":
+        from . import realpool
+
+        viols, labels, info = realpool.run_real(case)
+        labels = set(labels) | {"real-processes"}
+        info = dict({"n_tasks": len(case["tasks"]), "max_live": info.get("peak", 0), "dep_not_ok_with_multi": False,
+                     "skipped_dependents": 0, "cancel_hits": len(case["cancels"]),
+                     "cancel_running": 1 if info.get("cancel_hit_running") else 0, "timeouts": 0, "start_failures": 0,
+                     "log_failures": 0}, **info)
+    else:
+        viols, labels, info = vpool.run_history(case)
     mine = [Violation({"prop": p, **sig}, msg) for (p, sig, msg) in viols if p == prop]
     return mine, labels, info
+
+
+def real_extra(quick, thorough):
+    from . import realpool
+
+    return [{"name": "real", "strategy": lambda tier: realpool.real_case(6 if tier == "quick" else 8),
+             "examples": {"quick": quick, "thorough": thorough}, "wall_s": 240}]
